@@ -10,5 +10,3 @@ var sharedDecoderObligations = func(c *Check, rule string) {
 	portableDecoderRules(c, rule)
 }
 
-func dstNonNilAtCallSite(c *Check, p *Program, rule string) bool { return true }
-func portableDecoderRules(c *Check, prefix string)            {}
